@@ -82,7 +82,7 @@ class HamiltonianChain(MarkovChain):
         self.grad = self.finite_diff if grad is None else grad
 
         self.temperature = temperature
-        self.inv_temp = 1.0 / temperature
+        self.inv_temp = float(1.0 / temperature)  # (a plain float, as load() restores it)
 
         if start is not None:
             start = start if isinstance(start, ndarray) else array(start)
